@@ -417,6 +417,34 @@ def check_C10(tier, seed):
             pipeline.add_jobs(e, [lay], tag='lay', verbose=bool(rng.getrandbits(1)), ws=1, nl=rng.choice([0, 1, 1]))
     for e in entries[:3 if tier == 'quick' else 8]:
         byte_sweep(e, verbose=True)
+    # generated lexers whose automaton looks PAST the accepted lexeme before falling back (partial longer matches),
+    # multi-character and multi-line lexemes: the position must advance by the lexeme, not by what was scanned
+    import lx as lxl
+    lexsets = [
+        ('num_dot', [lxl.R('[0-9]+(\\.[0-9]+)?'), lxl.C('.'), lxl.R('[a-z]+')], '12.foo 3.5.x\n7.\n.9'),
+        ('shl', [lxl.S('<'), lxl.S('<<='), lxl.R('[a-z]+')], '<<x <<=y\n<< <\n<<'),
+        ('kw_prefix', [lxl.S('ab'), lxl.S('abcd'), lxl.R('[c-z]')], 'abcx abcd\nabc\nab'),
+        ('multiline', [lxl.S('a\nb'), lxl.C('a'), lxl.C('b'), lxl.C('\n')], 'a\nb a\na\nb\nb'),
+        ('strlit', [lxl.R('"[^"]*"'), lxl.R('[a-z]+')], 'x "a\nb\n" y "" "z'),
+    ]
+    lex_entries = []
+    for name, ts, sample in lexsets:
+        ts = [(k, [b for b in bytes(bytes(d).decode('latin-1').replace('\\\\', '\\'), 'latin-1')]) if k != 'C' else (k, d) for (k, d) in ts]
+        el = pipeline.lex_entry('c10' + name, ts)
+        sb = list(sample.encode('latin-1'))
+        alpha = sorted(set(sb))[:7]
+        ins = [sb] + [sb[:k] for k in range(1, len(sb), 3)]
+        Lx = 4 if tier == 'quick' else 5
+        for sx in gram.all_strings(alpha, Lx):
+            ins.append(sx)
+            if len(ins) > (900 if tier == 'quick' else 6000):
+                break
+        for (ws, nl) in ((1, 1), (1, 0), (0, 1)):
+            pipeline.add_jobs(el, ins if ws and nl else ins[::3], verbose=True, ws=ws, nl=nl, tag='o%d%d_' % (ws, nl))
+        for _ in range(20 if tier == 'quick' else 200):
+            pipeline.add_jobs(el, [[rng.choice(alpha) for _ in range(rng.randint(3, 30))]], verbose=bool(rng.getrandbits(1)), tag='r')
+        lex_entries.append(el)
+    entries += lex_entries
     res, work = prun.run(entries, 'C10', design_L=None, do_product=False, tlc_procs=4 if tier == 'quick' else 8, tlc_workers=4 if tier == 'quick' else 2)
     domain = {e.gid for e in entries}
     judge_traces(out, entries, res, {'position'}, domain)
@@ -754,6 +782,7 @@ def check_C03(tier, seed):
         pats += [rxl.render(a) for a in rxl.enum_asts(n)]
     pats += [rxl.render(a) for a in rxl.enum_asts(4)][::6] if tier == 'quick' else [rxl.render(a) for a in rxl.enum_asts(5)][::23]
     pats += rxl.repo_patterns()
+    pats += rxl.primary_forms(tier)
     pats += ['a*a', '(ab|ac)*', '(a|ab)c', '(a*b)*', 'a?a', '(ab)+a', 'a*b*a', '(a|b)*abb', '.*b', '[a-z]+[0-9]*', '(a{2}){3}', 'a{10}', '(a|b){4}c',
              '\\x41\\x7[\\x80-\\xff]'.replace('\\\\', '\\'), '/\\*.*\\*/'.replace('\\\\', '\\'), '"[^"]*"', '[_a-zA-Z][_a-zA-Z0-9]*', '0|[1-9][0-9]*', '1{2}3', '[0-9]+\\.[0-9]+'.replace('\\\\', '\\')]
     for i in range(200 if tier == 'quick' else 3000):
@@ -1050,9 +1079,16 @@ def check_C06(tier, seed):
             pipeline.add_jobs(e, [[rng.choice(odd + [ord(c) for c in e.g.ts] * 3) for _ in range(n)]], buf=3, verbose=bool(rng.getrandbits(1)), tag='f')
     for e in entries[:3 if tier == 'quick' else 10]:
         byte_sweep(e, buf=3, verbose=False)
+    # one lexeme longer than 2^16 bytes through the generated lexer (length bookkeeping in narrow integer types)
+    import lx as lxl
+    el = pipeline.lex_entry('longlexeme', [lxl.R('[a-z]+'), lxl.C(' ')])
+    pipeline.add_jobs(el, [[97] * 65600] + ([[98] * 70000 + [32] + [97] * 3, [97] * 131100] if tier != 'quick' else []), buf=0, verbose=False, ws=0, nl=0, tag='big')
+    pipeline.add_jobs(el, [[97, 98, 32, 99], [32, 32], [97] * 300], buf=3, verbose=True, ws=0, nl=0, tag='s')
+    entries.append(el)
     res, work = prun.run(entries, 'C06', design_L=None, do_product=False, tlc_procs=4 if tier == 'quick' else 8, tlc_workers=4 if tier == 'quick' else 2)
     domain = {e.gid for e in entries}
     judge_traces(out, entries, res, {'oob', 'extra:oobread', 'extra:oobiter', 'extra:oobview', 'extra:oob', 'threw', 'partial-line'}, domain)
+    judge_traces(out, [el], res, {'functor', 'step', 'verdict', 'report', 'extra', 'tree'}, {el.gid})     # the long lexeme must come out as ONE term
     for gid, rc in res.crashed:
         e = [x for x in entries if x.gid == gid][0]
         done = {t['id'] for t in e.traces}
@@ -1183,6 +1219,137 @@ def run_rxexpr(rng, tier):
     return recs, (None if r.returncode == 0 else 'exit %s: %s' % (r.returncode, r.stderr[-300:]))
 
 
+# ======================================================================================= C07
+def check_C07(tier, seed):
+    import gen_ct, resource
+    out = Outcome()
+    rng = random.Random(seed)
+    cat = {g.name: g for g in catalogue()}
+    names = ['left_rec', 'right_rec_empty', 'paren', 'expr_strat', 'lr1_not_lalr', 'reduce_la', 'expr_amb', 'mutual_rec']
+    if tier != 'quick':
+        names += ['closure_memo', 'first_stride', 'unit_chain', 'paren_list', 'opt_tail', 'two_lists', 'expr_unary', 'dangling_else', 'first_leftrec_chain', 'nullable_cycle2', 'll_pal', 'expr_rassoc']
+    grams = [cat[n] for n in names if n in cat]
+    entries, cases_by = [], {}
+    for g in grams:
+        e = pipeline.gen_entry(g, gid=g.name + '@ct')
+        entries.append(e)
+        alpha = [ord(t) for t in g.ts]
+        ins = []
+        for s in gram.all_strings(alpha + [ord('?'), 32], 3):
+            ins.append((s, 1, 1))
+        ins = ins[::max(1, len(ins) // (40 if tier == 'quick' else 120))]
+        for s in gengram.sentences(g, rng, 8 if tier == 'quick' else 25, max_len=14):
+            ins.append((s, 1, 1))
+            if s:
+                m = list(s); m[rng.randrange(len(m))] = rng.choice(alpha + [ord('?')])
+                ins.append((m, 1, 1))
+                sp = []
+                for b in s:
+                    sp += [b] + ([rng.choice([32, 10, 9])] if rng.random() < 0.4 else [])
+                ins.append((sp, 1, rng.choice([0, 1])))
+                ins.append((sp, 0, 1))
+        seen, uniq = set(), []
+        for (b, ws, nl) in ins:
+            k = (tuple(b), ws, nl)
+            if k not in seen:
+                seen.add(k); uniq.append((list(b), ws, nl))
+        cases_by[e.gid] = uniq
+    # ---- expected behaviours generated by TLC from the specification
+    given = [(e.gid, tuple(b), bool(ws), bool(nl)) for e in entries for (b, ws, nl) in cases_by[e.gid]]
+    verd, rv = prun.spec_verdicts(entries, given, 'C07v', tlc_workers=8)
+    work = vlib.scratch('C07')
+    tus = []
+    k2 = known_match('C12', 'stack-capacity')
+    for e in entries:
+        cases = []
+        for (b, ws, nl) in cases_by[e.gid]:
+            v = verd.get((e.gid, tuple(b), bool(ws), bool(nl)))
+            if v is None:
+                raise Infra('no specification verdict for %s %r' % (e.gid, b))
+            if v['status'] not in ('acc', 'rej'):
+                continue
+            ok = v['status'] == 'acc'
+            val = gen_ct.hash_tree(v['nodes'], v['root'], e.tla['tbytes']) if ok else 0
+            nempty = sum(1 for (_, r, _) in e.g.rules if not r)
+            cases.append({'bytes': list(b), 'ws': ws, 'nl': nl, 'ok': ok, 'val': val, 'maxstack': v['maxstack'], 'cap': len(b) + 1 + nempty + 1})
+        src = os.path.join(work, e.g.name + '_ct.cpp')
+        with open(src, 'w') as f:
+            f.write(gen_ct.tu(e.g, cases))
+        tus.append((e, cases, src))
+    inc = os.path.join(vlib.REPO, 'include')
+
+    def compile_job(cmd):
+        return lambda: subprocess.run(cmd, capture_output=True, text=True, timeout=1500)
+    jobs = []
+    for (e, cases, src) in tus:
+        jobs.append(('g++', e, compile_job(['g++', '-std=c++17', '-fsyntax-only', '-fconstexpr-ops-limit=2000000000', '-fconstexpr-loop-limit=100000000', '-fconstexpr-depth=4096', '-I' + inc, src])))
+        jobs.append(('clang++', e, compile_job(['clang++', '-std=c++17', '-fsyntax-only', '-fconstexpr-steps=2000000000', '-fconstexpr-depth=4096', '-fbracket-depth=2048', '-I' + inc, src])))
+        jobs.append(('build', e, compile_job(['g++', '-std=c++17', '-O1', '-DVERIF_RUNTIME_ONLY', '-I' + inc, src, '-o', src[:-4]])))
+    rs = vlib.run_parallel([j[2] for j in jobs])
+    ncases = sum(len(c) for _, c, _ in tus)
+    nct = 0
+    byent = {e.gid: (e, cases, src) for (e, cases, src) in tus}
+    for (kind, e, _), r in zip(jobs, rs):
+        cases = byent[e.gid][1]
+        if kind in ('g++', 'clang++'):
+            if r.returncode == 0:
+                nct += len(cases)
+                continue
+            err = r.stderr
+            if 'limit' in err and ('constexpr' in err) and ('exceed' in err or 'maximum' in err):
+                raise Infra('constant-evaluation limit of %s hit for %s (raise the limit; not a verdict)' % (kind, e.gid))
+            import re as _re
+            bad = sorted(set(int(x) for x in _re.findall(r'CT(\d+):', err)) | set(int(x) for x in _re.findall(r"'r(\d+)'", err)) | set(int(x) for x in _re.findall(r'\br(\d+)\b(?= must be initialized| is not a constant)', err)))
+            if not bad:
+                bad = [-1]
+            for i in bad[:3]:
+                c = cases[i] if 0 <= i < len(cases) else None
+                over = c and c['maxstack'] > c['cap']
+                summ = {'grammar': e.gid, 'compiler': kind, 'input': bytes(c['bytes']).decode('latin-1') if c else None, 'expected': ({'ok': c['ok'], 'value': c['val']} if c else None),
+                        'class': 'constant evaluation fails or disagrees with the specification', 'compiler_says': err[:600]}
+                if over and k2:
+                    out.known.append('K2 fixed stacks of cstring_buffer parses too small: %s input %r needs depth %d > capacity %d (constant evaluation rejected by %s)' % (e.gid, summ['input'], c['maxstack'], c['cap'], kind))
+                else:
+                    out.violations.append({'summary': summ, 'kind': 'ct', 'gname': e.g.name, 'source': byent[e.gid][2]})
+    # ---- run time: three buffers x {constexpr object, run-time constructed object}
+    nrt = 0
+    for (e, cases, src) in tus:
+        binp = src[:-4]
+        if not os.path.exists(binp):
+            out.violations.append({'summary': {'grammar': e.gid, 'class': 'the run-time translation unit does not compile'}, 'kind': 'ct', 'gname': e.g.name, 'source': src})
+            continue
+        r = subprocess.run(['bash', '-c', 'ulimit -s unlimited; exec ' + binp], capture_output=True, text=True, timeout=600)
+        got = collections.defaultdict(dict)
+        for ln in r.stdout.splitlines():
+            p = ln.split()
+            if len(p) == 4:
+                got[int(p[0])][p[1]] = (int(p[2]), int(p[3]))
+        for i, c in enumerate(cases):
+            for how in ('cstring,ctobj', 'cstring,rtobj', 'string,ctobj', 'string,rtobj', 'view,ctobj', 'view,rtobj'):
+                nrt += 1
+                g2 = got.get(i, {}).get(how)
+                exp = (1, c['val']) if c['ok'] else (0, 0)
+                if g2 != exp:
+                    over = c['maxstack'] > c['cap'] and how.startswith('cstring')
+                    if over and k2:
+                        out.known.append('K2 fixed stacks of cstring_buffer parses too small: %s input %r needs depth %d > capacity %d (%s)' % (e.gid, bytes(c['bytes']).decode('latin-1'), c['maxstack'], c['cap'], how))
+                        continue
+                    out.violations.append({'summary': {'grammar': e.gid, 'input': bytes(c['bytes']).decode('latin-1'), 'ws': c['ws'], 'nl': c['nl'], 'how': how, 'got(has_value,value)': g2,
+                                                       'expected': exp, 'class': 'run-time result differs from the specification (hence from constant evaluation / other buffers)',
+                                                       'exit': r.returncode}, 'kind': 'ct', 'gname': e.g.name, 'source': src})
+    out.known = sorted(set(out.known))[:6]
+    out.violations = out.violations[:12]
+    out.coverage = {'states': int(rv.distinct), 'transitions': int(max(rv.generated, 1)), 'traces_validated_against_impl': 0,
+                    'grammars': len(tus), 'inputs_with_TLC_generated_expectation': ncases, 'static_asserts_passed(per compiler sum)': nct, 'run_time_comparisons': nrt,
+                    'compilers': ['g++ -fsyntax-only', 'clang++ -fsyntax-only'], 'buffers': ['cstring_buffer', 'string_buffer', 'string_view_buffer'],
+                    'parser_objects': ['constexpr', 'constructed at run time'],
+                    'samples': [{'grammar': e.gid, 'input': bytes(c['bytes']).decode('latin-1'), 'expected_ok': c['ok'], 'expected_value': c['val']} for (e, cases, _) in tus[:2] for c in cases[:2]],
+                    'exhaustive': False}
+    out.assumptions = ['expected outcomes are generated by TLC from Driver.tla + LR1.tla (trees); the value is the generated functors\' hash of that tree',
+                       'constant-evaluation limits are raised explicitly; hitting one is an infrastructure error, not a verdict', 'the TU includes only ctpg.hpp (hooks off)']
+    return out
+
+
 # ======================================================================================= replay
 def replay(pid, path):
     v = json.load(open(path))
@@ -1195,6 +1362,10 @@ def replay(pid, path):
         print('library accepts:', recs[0] and recs[0]['valid'], ' ref mismatches:', len(ref.get('p0', [])), ' model mismatches:', len(model.get('p0', [])), ' syntax:', [d['why'] for d in probs])
         if crashed or ref or model or static or probs:
             out.violations.append(v)
+        return out
+    if v.get('kind') == 'ct':
+        print('C07 witnesses are translation units: re-run ./check C07 (source kept at %s)' % v.get('source'))
+        out.violations.append(v)
         return out
     if v.get('kind') == 'lx':
         import lx as lxl
